@@ -142,7 +142,7 @@ PROPS['C19'] = dict(
                  'identifier hygiene (predicate ids_clean): no registered native denom contains a byte <= 0x01 (bank denoms are [a-zA-Z][a-zA-Z0-9/:._-]{2,127}) and all registered canonical token addresses have one common length. From this and registry well-formedness lemma_no_ext01_from_ids PROVES that no registered key continues another one by a byte <= 0x01 (no_ext01), which is what lemma_c19_next_page needs. The factory itself does not validate denom characters, so this stays a hypothesis about the chain',
                  'registry well-formedness (every record stored under the key of its own assets) is the invariant established under C16 / C17 (lemma_registry_wf_preserved)',
                  'the walker continues with the asset_infos of the last pair of the previous page, as the statement says'],
-    explanation='read_pairs is verified: the page limit is min(limit or 10, 30); the cursor is pair_key(start_after) ++ [1], exclusive (calc_range_start, closure verified against its real body); the page is the first min(limit, remaining) records, in ascending key order, above the cursor, each mapped by to_normal (closure verified). query_pairs converts the cursor with to_raw and passes everything through; the query entry point serialises exactly that answer. Pure lemmas: the cursor built from the last returned pair is that pair\'s stored key (lemma_cursor_of_last, via registry_wf and canonicalize o humanize = id); under no_ext01 no key lies in (k, k ++ [1]] (lemma_gap, lemma_no_gap), so the next page resumes exactly at the following index (lemma_cursor_split, lemma_split_unique); by induction the concatenation of the pages is the whole ascending listing (lemma_walk_complete), which has no duplicates (lemma_sorted_no_dup).',
+    explanation='read_pairs is verified: the page limit is min(limit or 10, 30); the cursor is pair_key(start_after) ++ [1], exclusive (calc_range_start, closure verified against its real body); the page is the first min(limit, remaining) records, in ascending key order, above the cursor, each mapped by to_normal (closure verified). query_pairs converts the cursor with to_raw and passes everything through; the query entry point serialises exactly that answer. Pure lemmas: the cursor built from the last returned pair is that pair\'s stored key (lemma_cursor_of_last, via registry_wf and canonicalize o humanize = id); under no_ext01 no key lies in (k, k ++ [1]] (lemma_gap, lemma_no_gap), so the next page resumes exactly at the following index (lemma_cursor_split, lemma_split_unique); by induction the concatenation of the pages is the whole ascending listing (lemma_walk_complete), which has no duplicates (lemma_sorted_no_dup). lemma_c19_walk states the property itself over a sequence of pages each satisfying the proved postcondition of the Pairs query: first page from the beginning, every next page continuing after the last pair of the previous non-empty page, ending with the first empty page => the t-th visited pair is the t-th registered key, all keys are visited, none twice.',
 )
 
 PROPS['C20'] = dict(
